@@ -308,6 +308,9 @@ pub fn panic_site(msg: &str) -> String {
         &m[..k + "on an `Err` value".len()]
     } else if m.starts_with("range start index") || m.starts_with("range end index") || m.starts_with("slice index starts at") {
         "slice range out of bounds"
+    } else if let Some(k) = m.find("is not a char boundary") {
+        // the rest of the message quotes the character and the string (data of the input): not part of the class
+        &m[..k + "is not a char boundary".len()]
     } else {
         m
     };
